@@ -742,3 +742,44 @@ Proof.
     { unfold finish. destruct (d_window st); split; reflexivity. }
     destruct Hf as [F1 F2]. destruct stat; rewrite ?F1, ?F2; repeat split; try lia; exact Hs.
 Qed.
+
+(* ------------------------------------------------------------------------------------------------ *)
+(** * Histories of DRAW statements *)
+
+(* everything the plan carries is what the statement leaves behind (also after an error) *)
+Lemma draw_plan_pst g cmds : g_text g = false -> paint_free cmds = true ->
+  pst_of_g (dr_state (draw g cmds)) = pl_pst (plan cmds fresh (pst_of_g g))
+  /\ g_text (dr_state (draw g cmds)) = false
+  /\ g_cur (dr_state (draw g cmds)) = Some (current (dr_state (draw g cmds))).
+Proof.
+  intros Ht Haf. rewrite (draw_unfold g cmds Ht).
+  destruct (run cmds fresh (dstate_of_g g)) as [[st sg] stat] eqn:E.
+  destruct (run_plan cmds Haf fresh _ _ _ _ E) as (ps & ms & Hp & Hps & _).
+  change (pst_of (dstate_of_g g)) with (pst_of_g g) in Hp. rewrite Hp.
+  unfold dr_state, pl_pst, pst_of_g. cbn [fst snd g_scale g_attr g_nattr g_angle g_aspect g_text g_cur].
+  rewrite current_mk. subst ps. unfold pst_of.
+  assert (Hfin : pst_of (finish st) = pst_of st) by (unfold finish, pst_of; destruct (d_window st); reflexivity).
+  unfold pst_of in Hfin. destruct stat; repeat split; auto.
+Qed.
+
+Theorem history_plan : forall ss g,
+  g_text g = false -> forallb stmt_paint_free ss = true ->
+  current (history g ss) = pen_after (current g) (snd (hist_plan (pst_of_g g) ss))
+  /\ pst_of_g (history g ss) = fst (hist_plan (pst_of_g g) ss)
+  /\ g_text (history g ss) = false.
+Proof.
+  induction ss as [|s ss IH]; intros g Ht Hpf.
+  - cbn. auto.
+  - cbn [forallb] in Hpf. apply andb_true_iff in Hpf as [Hs Hpf]. unfold history in *. cbn [fold_left].
+    destruct s as [c|b]; cbn [do_stmt hist_plan stmt_paint_free] in *.
+    + destruct (draw_plan g c Ht Hs) as (_ & Hpen & _).
+      destruct (draw_plan_pst g c Ht Hs) as (Hps & Ht' & _).
+      unfold dr_state in *. 
+      destruct (IH (fst (fst (draw g c))) Ht' Hpf) as (I1 & I2 & I3).
+      rewrite Hps in I1, I2. unfold pl_pst, pl_moves in *.
+      destruct (hist_plan (fst (fst (plan c fresh (pst_of_g g)))) ss) as [ps' ms] eqn:Eh.
+      cbn [fst snd] in *. rewrite I1, Hpen, pen_after_app. auto.
+    + assert (Hc : current (set_window g b) = current g) by reflexivity.
+      assert (Hp : pst_of_g (set_window g b) = pst_of_g g) by reflexivity.
+      destruct (IH (set_window g b) Ht Hpf) as (I1 & I2 & I3). rewrite Hc, Hp in *. auto.
+Qed.
